@@ -166,6 +166,10 @@ SUBSET_RECIPES = [("arrNew",), ("arrNew", "arrNewPat"), ("strOwned",), ("vecRet"
                   ("arrNewAlloc",), ("vecRetD",), ("vecAlloc",), ("Box", "makeBox"), ("strVal",), ("deep",),
                   ("Item", "makeItem", "copyItem"), ("vecIota", "vecAlloc", "vecRet"),
                   ("Pt", "ptSum", "ptOut"), ("Arr", "arrTotal"), ("Pt", "Arr", "arrTotal", "ptScale")]
+# not in F_CFI variants: std::vector results (shroud cannot generate them), char** (other Fortran
+# interface), strFinal (its user-written 'final' clause is a c_buf statement, there is no such hook
+# for the CFI wrapper)
+CFI_UNSUPPORTED = ("vecRet", "vecRetD", "deep", "extraVecD", "charArrLen", "strFinal")
 NEEDS_CLASS = {"ptSum": "Pt", "ptOut": "Pt", "ptScale": "Pt", "arrTotal": "Arr", "makeItem": "Item", "borrowItem": "Item", "defaultItem": "Item", "copyItem": "Item", "useItem": "Item",
                "sumItems": "Item", "passItem": "Item", "refItem": "Item", "makeBox": "Box"}
 # declarations that (as documented) hand nothing to the caller that needs releasing
@@ -545,7 +549,7 @@ def asan_kind(stderr):
     return None
 
 
-def judge(driver, ops, exps, out, err, returncode, known=None):
+def judge(driver, ops, exps, out, err, returncode, known=None, label=None):
     """Compare one run with the model.  Returns (violations, inconclusive reason or None, stats).
 
     A mismatch whose signature matches a *recorded* finding (known_findings.txt) does not stop the
@@ -559,7 +563,8 @@ def judge(driver, ops, exps, out, err, returncode, known=None):
     zombie_hand = []
 
     def is_known(v):
-        sig = "%s:%s:%s:%s" % (v["inv"], v["kind"], driver, v.get("op"))
+        v["drv"] = label or driver  # e.g. "f-cfi": the Fortran driver of an F_CFI variant
+        sig = "%s:%s:%s:%s" % (v["inv"], v["kind"], v["drv"], v.get("op"))
         hit = report.match_known(known or [], sig)
         if hit:
             stats["known"][sig] = stats["known"].get(sig, 0) + 1
@@ -698,7 +703,10 @@ def run_sequence(build, driver, ops, tag, timeout=120, known=None):
             os.unlink(opsfile)
         except OSError:
             pass
-    vs, inc, stats = judge(driver, ops, exps, out, err, rc, known)
+    label = driver + "-cfi" if (getattr(build, "meta", None) or {}).get("F_CFI") else driver
+    vs, inc, stats = judge(driver, ops, exps, out, err, rc, known, label)
+    for v in vs:
+        v.setdefault("drv", label)
     # absolute heap block counts of the repeated-call measurement are not part of the execution's identity
     dig = digest_obj([(l.split("[GROW]")[0] if "[GROW]" in l else l)
                       for l in out.split("\n") if l.split(" ", 1)[0] in ("RES", "LIVE", "EV")])
@@ -708,7 +716,7 @@ def run_sequence(build, driver, ops, tag, timeout=120, known=None):
 # ------------------------------------------------------------------ engine
 class C06Engine(object):
     prop = "C06"
-    TIERS = {"quick": dict(variants=4, seqs=3200, maxlen=24, selftest=24, min_budget=150, min_classes=10),
+    TIERS = {"quick": dict(variants=5, seqs=4000, maxlen=24, selftest=24, min_budget=150, min_classes=10),
              "thorough": dict(variants=40, seqs=120000, maxlen=24, selftest=120, min_budget=300, min_classes=20)}
 
     def __init__(self, args):
@@ -745,6 +753,18 @@ class C06Engine(object):
             text, meta = make_variant_c(rng, self.base_yaml_c, index)
             d = os.path.join(campaign.scratch_dir(), "c06-v%d" % index)
             b = Build(d, text, C_DRIVERS, "v%d" % index, lib="simc")
+        elif index % 8 == 4:
+            # Fortran 2018 C descriptors (option F_CFI) instead of the bufferify protocol; everything
+            # except the std::vector results, which this shroud cannot generate with F_CFI
+            text, meta = make_variant(rng, self.base_yaml, index)
+            head, blocks, tail = split_decls(text)
+            blocks = [b for b in blocks if decl_name(b) not in CFI_UNSUPPORTED]
+            head = head.replace("options:\n", "options:\n  F_CFI: true\n", 1)
+            text = head + "".join(blocks) + tail
+            d = os.path.join(campaign.scratch_dir(), "c06-v%d" % index)
+            b = Build(d, text, ("f",), "v%d" % index)
+            b.have = set(decl_name(x) for x in blocks)
+            meta = dict(meta, variant="cfi%d" % index, F_CFI=True, subset=sorted(b.have))
         elif index % 4 == 3:
             # every fourth variant wraps only a subset of the declarations
             text, meta = make_variant_subset(rng, self.base_yaml, index)
@@ -786,6 +806,11 @@ class C06Engine(object):
 
     def variant_have(self, vi):
         """The wrapped declarations of variant vi (None = all): a function of the seed alone."""
+        if vi % 8 == 4:
+            if vi not in self._have:
+                text, _ = make_variant(self.seeds.rng("c06variant", vi), self.base_yaml, vi)
+                self._have[vi] = set(decl_name(b) for b in split_decls(text)[1]) - set(CFI_UNSUPPORTED)
+            return self._have[vi]
         if vi % 4 != 3:
             return None
         if vi not in self._have:
@@ -839,7 +864,7 @@ class C06Engine(object):
             self.samples.append({"driver": spec["driver"], "variant": spec["variant"], "ops": spec["ops"][:10]})
 
     def signature(self, spec, v):
-        return "%s:%s:%s:%s" % (v["inv"], v["kind"], spec["driver"], v.get("op"))
+        return "%s:%s:%s:%s" % (v["inv"], v["kind"], v.get("drv", spec["driver"]), v.get("op"))
 
     def run_all(self):
         nv = self.cfg["variants"]
@@ -922,7 +947,7 @@ class C06Engine(object):
         classes = {}
         for spec, res in self.failures:
             v = res["violations"][0]
-            classes.setdefault((v["inv"], v["kind"], spec["driver"], v.get("op")), []).append((spec, res))
+            classes.setdefault((v["inv"], v["kind"], v.get("drv", spec["driver"]), v.get("op")), []).append((spec, res))
         self.stats["violation_classes"] = len(classes)
         for sig, n in sorted(self.known_seen.items()):
             for _ in range(n):
